@@ -141,6 +141,12 @@ func Main(args []string) int {
 		os.Remove(drv.Bin)
 	}
 	r.Set("documents_rejected_by_generator", rejected)
+	// conformance clause on schema-known types: the generated families of the C03 engine
+	if only == "" {
+		if rc := ConformancePart(r); rc != 0 {
+			return rc
+		}
+	}
 	r.Assume("values are built by reflection over the generated Go types (all Opt/Nil/OptNil states, sum variants, enums, nil/empty/filled arrays and maps, extreme numbers, Unicode and escape-heavy strings) and kept only if the generated Validate() accepts them")
 	r.Assume("leaf rules: time.Time compares equal to the sent instant or to its date / time-of-day / whole-second projection (the Go type does not reveal the format); nil -> [] is a tolerated normalisation, [] -> nil (absent) is not; NaN/Inf are never generated")
 	return r.Finish("every named type with a generated JSON codec in the regenerated corpus packages (incl. the format matrix format_gen.json) x reflection-built validated values: Encode output is strict RFC 8259 JSON without duplicate members, Decode accepts it and returns an equal value (optional/nullable states, variant, nil-vs-empty), the decoded value validates, re-encoding gives the same JSON value. distinct = (package, type, value)", 3000, false)
@@ -155,3 +161,6 @@ func first(s string) string {
 	}
 	return s
 }
+
+// ConformancePart is set by the vf main package (sl/c03 drives it).
+var ConformancePart = func(r *ev.Run) int { return 0 }
